@@ -153,7 +153,7 @@ func (srv *Srv) flush(req *SrvReq) {
 		req.flushreq = r.flushreq
 		r.flushreq = req
 	}
-	verifPoint("flush.chained", req, 0, 0)
+	verifPoint("flush.chained", req, verifB(r != nil), 0)
 	conn.Unlock()
 
 	if r == nil {
